@@ -42,7 +42,7 @@ func vfAclAlphabet(thorough bool) []vfAclOp {
 	var ops []vfAclOp
 	users := []int{0, 1, 2, 3}
 	subModes := []string{"", "N", "JRWPS", "JRWPASDO"}
-	selfModes := []string{"N", "JRWPS", "JRWPASD", "JRWPASDO"}
+	selfModes := []string{"N", "JRWPS", "JRW", "JRWPASD", "JRWPASDO"}
 	otherModes := []string{"", "N", "JRWPA", "JRWPASDO"}
 	actors := []int{0, 1}
 	if thorough {
@@ -255,6 +255,18 @@ func vfAclExec(alphabet []vfAclOp) func(hist []int, last bool) vfXResult {
 				break
 			}
 			res.Violations = append(res.Violations, vfAclOracles(t, pre, op, code, frames, post)...)
+			// C08: "a request that was rejected ... changes neither the store nor what clients subsequently see"
+			if code >= 400 && res.PostDump != preDump {
+				how := op.Kind
+				if ps, ok := pre.live(fmt.Sprintf("u%d", op.Actor)); ok && !ps.Given.IsJoiner() {
+					how += "-by-banned-user"
+				} else if !ok {
+					how += "-by-non-subscriber"
+				}
+				res.Violations = append(res.Violations, vfXViolation{Key: "C08:rejected-request-changed-store:" + how,
+					What:   fmt.Sprintf("%s was answered %d, yet the store changed:\n%s", op, code, vfDumpDiff(preDump, res.PostDump)),
+					Detail: map[string]any{"op": op.String(), "code": code}})
+			}
 			res.Outcome = fmt.Sprintf("%s:%d", op.Kind, code/100)
 			res.Obs = fmt.Sprintf("%d %s", code, vfFramesCanon(frames))
 		}
